@@ -662,10 +662,16 @@ def run_function(E, fname, args, depth=0):
                     if fr is not None: regs[i.dest] = E.wrap(int(fr), tb)
                     else:
                         # truncation toward zero of a symbolic real, as Int -> BV (range obligation)
+                        # truncation toward zero; out-of-range conversion is undefined in C: the result is then an unconstrained fresh value
                         iv = z3.If(v >= 0, z3.ToInt(v), -z3.ToInt(-v))
                         lim = 2**(tb - 1) if op == 'fptosi' else 2**tb
-                        E.obligations.append(('double->int in range', z3.And(iv < lim, iv >= (-lim if op == 'fptosi' else 0))))
-                        regs[i.dest] = z3.Int2BV(iv, tb)
+                        memo = E.__dict__.setdefault('f2i_memo', {}); mk = (z3.simplify(v).get_id(), op, tb)
+                        if mk not in memo:      # functional: the same real value converts to the same integer
+                            r = z3.BitVec('f2i_%d' % len(memo), tb)
+                            inr = z3.And(iv < lim, iv >= (-lim if op == 'fptosi' else 0))
+                            fp.ax.append(z3.Implies(inr, z3.BV2Int(r, is_signed=(op == 'fptosi')) == iv))
+                            memo[mk] = (r, v)
+                        regs[i.dest] = memo[mk][0]
             elif op in ('fadd', 'fsub', 'fmul', 'fdiv'):
                 a = val(i.a, i.ty); b = val(i.b, i.ty)
                 regs[i.dest] = {'fadd': fp.fadd, 'fsub': fp.fsub, 'fmul': fp.fmul, 'fdiv': fp.fdiv}[op](a, b)
